@@ -568,7 +568,7 @@ def load_known():
         return json.load(f)
 
 
-def write_evidence(pmod, tier, seed, results, wall, violations, replayed):
+def write_evidence(pmod, tier, seed, results, wall, violations, replayed, partial=False):
     evaluations = replayed
     digests = set()
     per_sub = {}
@@ -626,6 +626,9 @@ def write_evidence(pmod, tier, seed, results, wall, violations, replayed):
         "violations": int(violations),
     }
     d = os.path.join(VERIF, "evidence")
+    if partial or os.path.realpath(os.environ.get("CATII_REPO", "/repo")) != os.path.realpath("/repo"):
+        # runs against a scratch copy (mutants) or of a subset of sub-checks never touch the real evidence
+        d = os.path.join(VERIF, ".cache", "evidence-scratch")
     os.makedirs(d, exist_ok=True)
     path = os.path.join(d, pmod.PROPERTY + ".json")
     tmp = path + ".tmp"
@@ -635,8 +638,8 @@ def write_evidence(pmod, tier, seed, results, wall, violations, replayed):
     try:
         _selfcheck_evidence(path)
     except Exception as e:
-        if violations:
-            sys.stderr.write("warning: evidence of this failing run does not validate: %s\n"
+        if violations or partial:
+            sys.stderr.write("warning: evidence of this failing / partial run does not validate: %s\n"
                              % str(e).splitlines()[0])
         else:
             raise HarnessError("evidence file does not validate: %s" % e)
@@ -703,7 +706,7 @@ def main_property(pmod, tier, seed, replay=None, only=None):
             sys.stderr.write("HARNESS ERROR in %s shard %s:\n%s\n" % (
                 r["sub"], r["shard"], r["harness_error"]))
         return 2
-    write_evidence(pmod, tier, seed, results, wall, len(violations), len(regress))
+    write_evidence(pmod, tier, seed, results, wall, len(violations), len(regress), partial=only is not None)
     ev = sum(r["rec"]["evaluations"] for r in results)
     print("%s tier=%s seed=%s: %d cases generated in %.1fs, %d regression replays, %d violation(s)"
           % (pid, tier, seed, ev, wall, len(regress), len(violations)))
